@@ -133,10 +133,11 @@ def run(res, tier, seed):
         rpath = os.path.join(wd, "random.trace.ndjson")
         ropath = os.path.join(wd, "random.out")
         vlib.run_driver("drive_front", ["record", "--seed", str(seed), "--n", str(n_rand), "--trace", rpath], stdout_path=ropath)
+        # ---- L (the driver mostly waits; it overlaps with the model check)
+        run_live(res, wd, cpath, seed, thorough)
         mc_results = f_mc.result()
     for cfg, st in mc_results:
         res.add_mc(cfg, st)
-    run_live(res, wd, cpath, seed, thorough)
     res.states += gst["distinct"]
     res.transitions += gst["generated"]
 
